@@ -1,0 +1,27 @@
+//go:build verif
+
+package logqlpattern
+
+// Contracts for the deductive verifier in /verif (govc). Comment-only: no code is added.
+
+//@ scope match.go
+
+// Literal parts must match as a prefix of the rest of the input; a capture takes the text up to the
+// next part's literal (the whole rest when it is the last part) and is reported unless named "_".
+//@ func Match
+//@   calls match
+//@   capture m = call(match, 0)
+//@   capture cp = call(strings.CutPrefix, 0)
+//@   capture ct = call(strings.Cut, 0)
+//@   modifies nothing
+//@   loop 0 modifies nothing
+//@   loop 0 invariant rangeindex+1 <= len(parts) && len(parts) == len(p.Parts)
+//@   loop 0 body_ensures[literal-must-be-a-prefix] parts[rangeindex].Type == Literal ==> cp_called && cp_a0 == head(input) && cp_a1 == parts[rangeindex].Value && cp_r1 && input == cp_r0 && !m_called
+//@   loop 0 body_ensures[capture-up-to-next-literal] parts[rangeindex].Type == Capture && rangeindex+1 < len(parts) ==> ct_called && ct_a0 == head(input) && ct_a1 == parts[rangeindex+1].Value && ct_r2
+//@   loop 0 body_ensures[capture-reported-with-its-label] parts[rangeindex].Type == Capture && parts[rangeindex].Value != "_" ==> m_called && m_a0 == logql.Label(parts[rangeindex].Value) && m_a1 == ite(rangeindex+1 < len(parts), ct_r0, head(input))
+//@   loop 0 body_ensures[underscore-not-reported] parts[rangeindex].Type == Capture && parts[rangeindex].Value == "_" ==> !m_called
+
+// Frame only (assumed): the pattern parser allocates its result and reads its argument.
+//@ func Parse
+//@   trusted
+//@   modifies nothing
